@@ -285,3 +285,16 @@ Proof. exact cast_int_float. Qed.
 
 Theorem literal_text_in_text_column : cast_str_to_array [s_True; [120]; s_None] = Ok [CB true; CS [120]; CN].
 Proof. exact cast_literals_in_text. Qed.
+
+(** ---------------------------------------------------------------- natural join: key pairing
+
+    [natural_join_keys] above is what the code does: the shared names in self's
+    order are paired BY POSITION with the shared names in other's order.  When
+    the two tables list the shared columns in a different order this is not the
+    join on the same-named columns: *)
+Theorem natural_join_shared_columns_order_refuted :
+  wf nj_self /\ wf nj_other /\
+  exists t, joined nj_self nj_other None None true right_ = Ok t /\
+    let ks := filter (fun c => mem_str c (hdr nj_other)) (hdr nj_self) in
+    rows t <> spec_inner_join (hdr nj_self) (rows nj_self) (hdr nj_other) (rows nj_other) ks ks.
+Proof. exact natural_join_by_position_refuted. Qed.
